@@ -21,7 +21,7 @@ import tempfile
 
 ID = 'C18'
 TITLE = 'Unpacking a dataset archive never writes outside the install directory'
-GEN = []
+GEN = ['IoShapes']
 RULE = ('each case = an archive of 1..7 members; kinds file/dir/symlink/hardlink/fifo; names from {plain, nested, ./x, a/../b, '
         '../x, ../../x, /abs, ../<install dir name>/x, ../<missing>/../<install dir name>/x (the member lands inside, its parent '
         'directories would not), through a previously created link}; link targets from {sibling, sub/dir, '
